@@ -198,6 +198,45 @@ def _escape(repo, rep):
               "text is handed to the interpolator only if it contains ${ "
               "and interpolation is on", construct="interp-guard",
               where=L.where(f))
+    # with ${...} present the interpolator cuts the text into literal
+    # pieces and expressions: every literal piece of the source text it
+    # emits has passed '$$' -> '$' (and nothing else)
+    from .c11 import _chains
+    ic = repo.func("chameleon.compiler.Interpolator.__call__")
+    pieces = []
+    for n in ast.walk(ic.node):
+        if isinstance(n, ast.Call) and src(n.func) == "ast.Constant" and \
+                len(n.args) == 1:
+            chains = _chains(ic.node, n.args[0], n.lineno + 1)
+            roots = {c[-1] for c in chains}
+            # pieces of the source: chains that end in the expression text
+            if not any(r.startswith("attr:expression") or
+                       r == "root:self" for r in roots):
+                continue
+            if all("method:group" in c for c in chains):
+                continue   # the text of a matched (empty) ${} itself
+            pieces.append((n, chains))
+    okp = bool(pieces)
+    detail = ""
+    for n, chains in pieces:
+        for c in chains:
+            steps = [x for x in c if x not in ("slice", "slice-neg")]
+            if not steps or steps[0] != "method:replace":
+                okp = False
+                detail = "%s: %s" % (src(n), " <- ".join(c))
+    rep.check(len(pieces) >= 2 and okp, "R20.2", ic.qualname, "every literal "
+              "piece of text between / after the ${...} expressions is "
+              "emitted with '$$' un-doubled (last step before the constant "
+              "is built)", construct="pieces-undoubled", where=L.where(ic),
+              detail=detail or "%d piece(s)" % len(pieces))
+    repl = [n for n in ast.walk(ic.node) if isinstance(n, ast.Call)
+            and isinstance(n.func, ast.Attribute) and n.func.attr == "replace"
+            and isinstance(n.func.value, ast.Name)]
+    rep.check(bool(repl) and all(
+        [src(a) for a in r_.args] == ["'$$'", "'$'"] for r_ in repl),
+        "R20.2", ic.qualname, "the only rewriting of literal text is "
+        "'$$' -> '$'", construct="pieces-only-dollar", where=L.where(ic),
+        detail=str([src(r_) for r_ in repl]))
     mp = repo.cls(PROG[:-1])
     dv = mp.attrs.get("escape")
     rep.check(isinstance(dv, ast.Constant) and dv.value is True, "R20.2",
